@@ -39,7 +39,7 @@ pub enum Case {
     Dist3 { a: P3, b: P3, dir: Option<P3> },
     DevSet { initial: Option<Vec<f64>>, pushes: Vec<f64> },
     Cloud { start: CloudStart, ops: Vec<CloudOp> },
-    TolMap { start: f64, incs: Vec<f64>, queries: Vec<(u16, f64, u8)> },
+    TolMap { start: f64, incs: Vec<f64>, queries: Vec<(u16, f64, u8)>, #[serde(default)] zero_at: Option<u16> },
 }
 
 fn devval() -> BoxedStrategy<f64> {
@@ -50,13 +50,13 @@ impl Property for C16 {
     type Case = Case;
     const ID: &'static str = "C16";
     fn rule() -> &'static str {
-        "families: (D) nominal 2D curves and consistently wound meshes with measured points built as reference point +- s*direction (both sides, corners, beyond open ends, on the surface), directed distances with optional direction; (H) histories: deviation sets built from a vector or empty then 0-40 pushes with repeated values and +-1e300; point clouds started empty / try_new with consistent or inconsistent lengths / from points / from surface points then appends, merges (half inconsistent) and index selections; tolerance tables with repeated breakpoints queried at, between, one ulp around, below and beyond the breakpoints. Oracle: exhaustive closest distance and side of the normal; plain Vec models for the aggregates. Non-trivial: (D) measured point on the inner side or nearest to a corner; (H) >=3 pushes with a tie for an extreme, or at least one rejected and one accepted mutation, or a repeated breakpoint. Distinct = distinct canonical JSON."
+        "families: (D) nominal 2D curves and consistently wound meshes with measured points built as reference point +- s*direction (both sides, corners, beyond open ends, on the surface), directed distances with optional direction; (H) histories: deviation sets built from a vector or empty then 0-40 pushes with repeated values and +-1e300; point clouds started empty / try_new with consistent or inconsistent lengths / from points / from surface points then appends, merges (half inconsistent) and index selections; tolerance tables with repeated breakpoints queried at, between, one ulp around, below and beyond the breakpoints, and at +0.0 and -0.0 (30 % of the tables are slid so that one breakpoint is exactly zero). Oracle: exhaustive closest distance and side of the normal; plain Vec models for the aggregates. Non-trivial: (D) measured point on the inner side or nearest to a corner; (H) >=3 pushes with a tie for an extreme, or at least one rejected and one accepted mutation, or a repeated breakpoint. Distinct = distinct canonical JSON."
     }
     fn cases(t: Tier) -> u32 {
         t.pick(2_400_000, 20_000_000)
     }
     fn expected_labels() -> Vec<&'static str> {
-        vec!["curve_dev", "mesh_dev", "dist2", "dist3", "devset", "cloud", "tolmap", "inner_side", "outer_side", "corner", "on_surface", "tie_extreme", "rejected_op", "accepted_op", "try_new_rejected", "below_first", "beyond_last", "repeated_breakpoint", "interval_filter"]
+        vec!["curve_dev", "mesh_dev", "dist2", "dist3", "devset", "cloud", "tolmap", "inner_side", "outer_side", "corner", "on_surface", "tie_extreme", "rejected_op", "accepted_op", "try_new_rejected", "below_first", "beyond_last", "repeated_breakpoint", "interval_filter", "zero_breakpoint", "query_negative_zero"]
     }
     fn strategy(t: Tier) -> BoxedStrategy<Case> {
         let gmax = t.pick(8, 14);
@@ -79,7 +79,7 @@ impl Property for C16 {
             1 => (p3(10.0), p3(10.0), prop::option::of(unit3())).prop_map(|(a, b, dir)| Case::Dist3 { a, b, dir }),
             3 => (prop::option::of(prop::collection::vec(devval(), 0..8)), prop::collection::vec(devval(), 0..40)).prop_map(|(initial, pushes)| Case::DevSet { initial, pushes }),
             3 => (cloud_start, prop::collection::vec(cloud_op, 0..10)).prop_map(|(start, ops)| Case::Cloud { start, ops }),
-            2 => (coord(5.0), prop::collection::vec(prop_oneof![1 => Just(0.0), 3 => unif(0.01, 2.0)], 0..20), prop::collection::vec((any::<u16>(), unif(0.0, 1.0), 0u8..6), 1..10)).prop_map(|(start, incs, queries)| Case::TolMap { start, incs, queries }),
+            2 => (coord(5.0), prop::collection::vec(prop_oneof![1 => Just(0.0), 3 => unif(0.01, 2.0)], 0..20), prop::collection::vec((any::<u16>(), unif(0.0, 1.0), 0u8..8), 1..10), prop::option::weighted(0.3, any::<u16>())).prop_map(|(start, incs, queries, zero_at)| Case::TolMap { start, incs, queries, zero_at }),
         ]
         .boxed()
     }
@@ -91,7 +91,7 @@ impl Property for C16 {
             Case::Dist3 { a, b, dir } => dist3(a, b, dir),
             Case::DevSet { initial, pushes } => devset(initial, pushes),
             Case::Cloud { start, ops } => cloud(start, ops),
-            Case::TolMap { start, incs, queries } => tolmap(*start, incs, queries),
+            Case::TolMap { start, incs, queries, zero_at } => tolmap(*start, incs, queries, *zero_at),
         }
     }
 }
@@ -511,7 +511,7 @@ fn cloud(start: &CloudStart, ops: &[CloudOp]) -> Verdict {
     cx.pass()
 }
 
-fn tolmap(start: f64, incs: &[f64], queries: &[(u16, f64, u8)]) -> Verdict {
+fn tolmap(start: f64, incs: &[f64], queries: &[(u16, f64, u8)], zero_at: Option<u16>) -> Verdict {
     let mut cx = Ctx::new();
     cx.label("tolmap");
     let mut xs = vec![start];
@@ -520,6 +520,14 @@ fn tolmap(start: f64, incs: &[f64], queries: &[(u16, f64, u8)]) -> Verdict {
         xs.push(l + i);
     }
     let n = xs.len();
+    // optionally slide the table so that one breakpoint is exactly (positive) zero: queries 6 and 7 ask for -0.0 and +0.0
+    if let Some(z) = zero_at {
+        let x0 = xs[idx(z, n)];
+        for x in xs.iter_mut() {
+            *x = (*x - x0) + 0.0;
+        }
+        cx.label("zero_breakpoint");
+    }
     let zones: Vec<Tolerance> = (0..n).map(|i| Tolerance::new_unchecked(-(i as f64) - 1.0, i as f64 + 1.0)).collect();
     let dom = DiscreteDomain::try_from(xs.clone()).unwrap();
     // length mismatch must be rejected
@@ -546,9 +554,18 @@ fn tolmap(start: f64, incs: &[f64], queries: &[(u16, f64, u8)]) -> Verdict {
                 }
             }
             4 => xs[0] - 0.5 - f,
-            _ => xs[n - 1] + 0.5 + f,
+            5 => xs[n - 1] + 0.5 + f,
+            6 => {
+                cx.label("query_negative_zero");
+                -0.0
+            }
+            _ => 0.0,
         };
-        let Some(z) = map.get(x) else {
+        let got = match guarded(|| map.get(x)) {
+            Ok(g) => g,
+            Err(m) => return Verdict::fail("C16/tolmap/panic", format!("get({x:e}) on table {:?}: {m}", xs)),
+        };
+        let Some(z) = got else {
             return Verdict::fail("C16/tolmap/none_for_nonempty", format!("get({x:e}) returned None for a non-empty table"));
         };
         let zi = (z.upper - 1.0) as usize;
